@@ -287,6 +287,20 @@ Section Scheme.
           EncStream (header ++ out) st
     end.
 
+  (* Encrypt with its WrapKeyFn callback: options are validated, the file key is drawn, the
+     callback is invoked with (file key, un-aliased algorithm, opts.KeyName) and its failure is
+     Encrypt's failure; the rest is [encrypt_stream] with the wrapped key it returned. *)
+  Definition encrypt_stream_w (S H : nat) (o : enc_opts) (fk np : list N)
+             (wrap : list N -> list N -> list N -> option (list N)) (sc : list rd) : enc_result :=
+    match encrypt_wrap_args o with
+    | None => EncCallError
+    | Some (alg, kn) =>
+        match wrap fk alg kn with
+        | None => EncCallError                         (* "failed to wrap the file key" *)
+        | Some wfk => encrypt_stream S H o fk np wfk sc
+        end
+    end.
+
   (* ----------------------------------------------------------------------------------- *)
   (* scheme.go Decrypt                                                                     *)
 
